@@ -31,7 +31,7 @@ HIST = H.s_history(max_tests=4, with_time=False, with_startless=True, with_place
 
 @st.composite
 def s_case(draw):
-    return {"reporter": draw(st.sampled_from(REPORTERS)), "history": draw(HIST),
+    return {"reporter": draw(st.sampled_from(REPORTERS)), "history": draw(HIST), "scratch_tags": draw(st.booleans()),
             "tagger": [sorted(draw(H.TAGSET)), sorted(draw(H.TAGSET))]}
 
 
@@ -128,6 +128,7 @@ def run_case(spec):
     name = spec["reporter"]
     r, obs, extra = build(name, spec)
     model = H.TagModel()
+    scratch = (set(), set())
     expected_at_outcome = []
     tests = {}
     cur = None
@@ -161,7 +162,13 @@ def run_case(spec):
             elif k == "stopTestRun":
                 r.stopTestRun()
             elif k == "tags":
-                r.tags(set(op["new"]), set(op["gone"]))
+                if spec.get("scratch_tags"):
+                    # a reporter that refills two scratch sets instead of building new ones for every call
+                    scratch[0].clear(); scratch[0].update(op["new"])
+                    scratch[1].clear(); scratch[1].update(op["gone"])
+                    r.tags(scratch[0], scratch[1])
+                else:
+                    r.tags(set(op["new"]), set(op["gone"]))
                 model.change(op["new"], op["gone"])
                 if model.l is not None and (op["new"] or op["gone"]):
                     local_change_seen = True
@@ -183,6 +190,11 @@ def run_case(spec):
                 # a Tagger tags at startTest, which never happens here
                 expected_at_outcome.append(frozenset(model.current))
                 r.addSkip(t, op["reason"])
+                tb = op.get("tags_between")
+                if tb:
+                    # there is no test-local scope (startTest never happened): this is a run-level change
+                    r.tags(set(tb["new"]), set(tb["gone"]))
+                    model.change(tb["new"], tb["gone"])
                 r.stopTest(t)
                 startless = True
             elif k == "placeholder":
